@@ -48,6 +48,17 @@ func globalIdent(old ast.GlobalIdent) ir.GlobalIdent {
 	return ir.GlobalIdent{GlobalName: ident}
 }
 
+// checkIdentRef validates the given global, local or type identifier (in LLVM
+// IR assembly syntax), used as a reference. The empty quoted name (e.g. `%""`
+// or `@""`) denotes an unnamed definition; nothing is ever named by it, thus a
+// reference to the empty name has no definition.
+func checkIdentRef(ident string) error {
+	if len(ident) == 3 && ident[1:] == `""` {
+		return errors.Errorf("unable to locate identifier %q", ident)
+	}
+	return nil
+}
+
 // --- [ Local identifiers ] ---------------------------------------------------
 
 // localIdent returns the identifier (without '%' prefix) of the given local
@@ -308,6 +319,9 @@ func (fgen *funcGen) irArg(old ast.Arg) (value.Value, error) {
 
 // irBlock returns the IR basic block corresponding to the given AST label.
 func (fgen *funcGen) irBlock(old ast.Label) (*ir.Block, error) {
+	if err := checkIdentRef(old.Name().Text()); err != nil {
+		return nil, err
+	}
 	ident := localIdent(old.Name())
 	v, ok := fgen.locals[ident]
 	if !ok {
@@ -395,6 +409,9 @@ func (fgen *funcGen) irExceptionPad(old ast.ExceptionPad) (ir.ExceptionPad, erro
 	case *ast.NoneConst:
 		return constant.None, nil
 	case *ast.LocalIdent:
+		if err := checkIdentRef(old.Text()); err != nil {
+			return nil, err
+		}
 		ident := localIdent(*old)
 		v, ok := fgen.locals[ident]
 		if !ok {
@@ -532,6 +549,9 @@ func (fgen *funcGen) irIncoming(xType types.Type, oldX ast.Value, oldPred ast.Lo
 	x, err := fgen.irValue(xType, oldX)
 	if err != nil {
 		return nil, errors.WithStack(err)
+	}
+	if err := checkIdentRef(oldPred.Text()); err != nil {
+		return nil, err
 	}
 	predIdent := localIdent(oldPred)
 	v, ok := fgen.locals[predIdent]
